@@ -17,14 +17,15 @@ theorem C08_validator_sound {G : Grammar} {A : Automaton} {C : Cert} (h : validF
 
 /-- **Soundness.**  If the tables validate and the parser accepts `w` with tree `t`, then `t`
 is a derivation of `w`: every node an instance of a production of `G`, the root is the start
-symbol, the leaves are the input tokens in order.  (`w` must not contain a token whose symbol
-is the end-of-input marker: see the open finding `end-of-input-symbol-inside-token-list`.) -/
+symbol, the leaves are the input tokens in order — for **every** token list (a client token
+that carries the end-of-input marker as its symbol has no action since fix 935ff56, so the
+former hypothesis "no `$` token in `w`" is gone). -/
 theorem C08_sound {G : Grammar} {A : Automaton} {C : Cert} (hv : Valid G A C)
-    {w : List Token} (hw : ∀ t ∈ w, t.sym ≠ G.eoi) {fuel : Nat} {t : Tree}
+    {w : List Token} {fuel : Nat} {t : Tree}
     (h : run A fuel w = .accept t) : Derives G t w := by
   obtain ⟨hp, hr, k, hk, hy⟩ := (runFrom_post hv w fuel init (inv_init w)).2 t h
   refine ⟨hp, hr, ?_⟩
-  rw [hy, List.take_of_length_le (lookahead_eoi_ge hw hk)]
+  rw [hy, List.take_of_length_le hk]
 
 /-- **Safety.**  Over validated tables `Parser.parse` never raises: no `KeyError` (missing goto
 or action row), no failed assertion, no stack underflow, no shift past the end of input — for
@@ -54,9 +55,9 @@ theorem C08_unambiguous {G : Grammar} {A : Automaton} {C : Cert} (hv : Valid G A
 /-- **Exactly the grammar's language.**  Over validated tables the parser accepts `w` with tree
 `t` iff `t` is a derivation of `w`. -/
 theorem C08_accepts_iff {G : Grammar} {A : Automaton} {C : Cert} (hv : Valid G A C)
-    {w : List Token} (hw : ∀ t ∈ w, t.sym ≠ G.eoi) (t : Tree) :
+    {w : List Token} (t : Tree) :
     (∃ fuel, run A fuel w = .accept t) ↔ Derives G t w :=
-  ⟨fun ⟨_, h⟩ => C08_sound hv hw h, fun hd =>
+  ⟨fun ⟨_, h⟩ => C08_sound hv h, fun hd =>
     let ⟨f, hf⟩ := C08_complete hv hd
     ⟨f, hf f (Nat.le_refl _)⟩⟩
 
@@ -102,6 +103,10 @@ example : run exA 20 [⟨5, 0⟩, ⟨5, 1⟩, ⟨4, 2⟩] =
     .accept (.node ⟨2, [3, 4]⟩ [.node ⟨3, [5, 3]⟩ [.leaf ⟨5, 0⟩,
       .node ⟨3, [5, 3]⟩ [.leaf ⟨5, 1⟩, .node ⟨3, []⟩ []]], .leaf ⟨4, 2⟩]) := by decide
 example : run exA 20 [⟨5, 0⟩, ⟨5, 1⟩] = .error none 2 3 [4, 5] := by decide
+-- test (tables and result regenerated from the real code): a client token whose symbol is the
+-- end-of-input marker (code 0) is a syntax error at its own index, not "accept what came before"
+example : run exA 60 [⟨5, 0⟩, ⟨0, 1⟩, ⟨5, 2⟩] = .error none 1 3 [4, 5] := exRun3
+example : run exA 60 [⟨5, 0⟩, ⟨4, 1⟩, ⟨0, 2⟩] = .error none 2 4 [0] := exRun5
 example : Reduced exG :=
   ⟨by
     have hA : Productive exG 3 := ⟨.node ⟨3, []⟩ [], ParseTree.node _ _ (by decide) (by simp) rfl, rfl⟩
